@@ -381,8 +381,13 @@ where
     ) -> Result<(), Self::Error> {
         let buffer = encode(vault).await?;
 
-        let file =
-            OpenOptions::new().write(true).open(&self.file_path).await?;
+        // Must truncate otherwise when the new vault is smaller
+        // stale rows would remain at the end of the file
+        let file = OpenOptions::new()
+            .write(true)
+            .truncate(true)
+            .open(&self.file_path)
+            .await?;
         let mut guard = file.lock_write().await.map_err(|e| e.error)?;
         guard.write_all(&buffer).await?;
         guard.flush().await?;
